@@ -360,7 +360,12 @@ class Machine:
                     self.statics[key] = self.run(Frame(b))
                 return self.statics[key]
             return Native('FnItem', name=b.name)
-        # enum unit variant constant, e.g. 'Token::StmtEnd' is printed as aggregate normally; fallthrough
+        # a unit variant printed by its bare name (`_1 = PosOverflow;` for std's non-exhaustive enums) or by a path
+        if re.fullmatch(r'[A-Za-z_][\w:]*', txt):
+            segs = txt.split('::')
+            if len(segs) >= 2 and segs[-2] in ENUMS and segs[-1] in ENUMS[segs[-2]]: return Agg(segs[-2], ENUMS[segs[-2]].index(segs[-1]), [])
+            owners = [e for e, vs in ENUMS.items() if segs[-1] in vs]
+            if len(segs) == 1 and len(owners) == 1 and segs[0][0].isupper(): return Agg(owners[0], ENUMS[owners[0]].index(segs[0]), [])
         return Native('ZST', name=txt)
 
     def rvalue(self, fr, rv):
@@ -481,6 +486,10 @@ class Machine:
             if pat.search(nm): return f(self, args, callee)
         key = self.lookup(callee)
         if key is not None: return self.call(key, args)
+        # a tuple-variant constructor used as a function (`.map(Some)`, `map_or_else(.., Ok)`, `.map(Value::Int)`)
+        segs = strip_generics(nm).split('::')
+        if len(segs) >= 2 and segs[-2] in ENUMS and segs[-1] in ENUMS[segs[-2]]:
+            return Agg(segs[-2], ENUMS[segs[-2]].index(segs[-1]), list(args))
         raise Unsupported("no model for call: %s   [norm: %s]" % (callee, nm))
 
 class SliceHolder:
@@ -591,6 +600,10 @@ def resolve_adt(path):
         return 'MainError', ENUMS['MainError'].index(segs[1])
     if len(segs) >= 2 and segs[-2] in ENUMS and segs[-1] in ENUMS[segs[-2]]:
         return segs[-2], ENUMS[segs[-2]].index(segs[-1])
+    if len(segs) == 1:
+        # a variant printed by its bare name (std's non-exhaustive enums: `_1 = PosOverflow;`)
+        owners = [e for e, vs in ENUMS.items() if segs[0] in vs]
+        if len(owners) == 1: return owners[0], ENUMS[owners[0]].index(segs[0])
     return segs[-1], 0
 
 # ---------------------------------------------------------------- std models (lexer subset)
@@ -842,6 +855,14 @@ def find_fn(M, pat):
     r = [n for n in M.bodies if re.search(pat, n)]
     assert len(r) == 1, (pat, r)
     return r[0]
+
+def find_by_sig(M, last, header_re):
+    """the function whose last path segment is `last` and whose header (parameters and return type) matches: independent of file and line"""
+    r = [n for n, b in M.bodies.items() if n.endswith('::' + last) and re.search(header_re, b.header)]
+    assert len(r) == 1, (last, header_re, r)
+    return r[0]
+LEXER_NEW_SIG = ('new', r'\(_1: &str\) -> (?:\w+::)*Lexer<')
+LEXER_NEXT_SIG = ('next', r'\(_1: &mut (?:\w+::)*Lexer<[^)]*\) -> Option<')
 
 @model_re(r'^<Option<.*> as Clone>::clone$')
 def m_opt_clone(M, a, c):
